@@ -1,4 +1,5 @@
 """C03 — style mappings resolve by first match, with user > embedded > default precedence."""
+import common
 import random
 
 import apicheck as A
@@ -42,7 +43,7 @@ def split_case(seed, tier):
 
 
 def run(out, tier, seed, model_ok):
-    n = 1500 if tier == "quick" else 20000
+    n = common.deepen(1500 if tier == "quick" else 20000)
     cs = [split_case(seed * 1000003 + i, tier) for i in range(n)]
     run_ = A.ApiRun(out, "C03", model_ok, project, name="resolution")
     run_.run(cs, nontrivial=lambda c, r: bool(c["options"]["styleMap"]))
